@@ -464,6 +464,38 @@ impl C15 {
             if (kind == Kind::Pool || matches!(kind, Kind::Mint(_))) && matches!(name, "initialize_reward" | "initialize_reward_v2") {
                 continue;
             }
+            // forged clone: the very bytes of the right account at another address, owned by a program that is not
+            // the account's owner (a stranger, or a look-alike id sharing the owner's leading and trailing bytes)
+            // (the trader's / owner's own token accounts are not pool accounts: an unused one is never looked at)
+            let users_own = slot.starts_with("token_owner_account") || slot.starts_with("token_destination") || slot == "reward_owner_account" || slot == "destination_token_account";
+            if kind != Kind::Program && !users_own && rng.chance(1, 2) {
+                if let Some(a) = l.get(&m.pubkey) {
+                    let mut lookalike = a.owner.to_bytes();
+                    lookalike[15] ^= 0x5a;
+                    for (fi, forger) in [scratch_key(salt, 6100), Pubkey::new_from_array(lookalike)].iter().enumerate() {
+                        let fk = scratch_key(salt, 6200 + i as u64);
+                        let mut f = l.clone();
+                        f.put(fk, Account { lamports: a.lamports, data: a.data.clone(), owner: *forger, executable: false });
+                        let mut ixn = v.ix.clone();
+                        ixn.accounts[i].pubkey = fk;
+                        let r = exec(&f, ixn);
+                        let label = if fi == 0 { "forged clone owned by a stranger program" } else { "forged clone owned by a look-alike program id" };
+                        cov.eval(format!("{}|{}|{}", name, slot, label));
+                        self.cell(format!("{} / {} / {}", name, slot, label), !r.ok);
+                        if r.ok {
+                            let pos_note = match c.acct("position").and_then(|p| l.data(&p).and_then(decode::position)) {
+                                Some(p) if p.liquidity == 0 => " [position without liquidity]",
+                                Some(_) => " [position with liquidity]",
+                                None => "",
+                            };
+                            out.push(v15("foreign_account_accepted", idx, format!("{}: succeeded with a {} ({}) in the `{}` slot instead of {}{}", name, label, forger, slot, m.pubkey, pos_note)));
+                            if crate::run::is_known(&crate::run::load_known_findings(), out.last().unwrap()).is_none() {
+                                return;
+                            }
+                        }
+                    }
+                }
+            }
             // candidates of the same type that belong elsewhere
             let mut cands: Vec<(Pubkey, &'static str)> = Vec::new();
             if kind == Kind::Oracle {
